@@ -1047,6 +1047,7 @@ func runC15(o *out, thorough bool, r *rng, _ []string) map[string]interface{} {
 	}
 	closeErrorScenarios(o, r, 64)
 	reentrantHandlerScenarios(o, r, 24)
+	defaultCollectorScenarios(o, r, 40)
 	return nil
 }
 
@@ -1470,5 +1471,76 @@ func agentRefusesRetransmissionScenarios(o *out, r *rng, n int) {
 		}
 		_ = c.Close()
 		o.count("agent-refuses-retransmission")
+	}
+}
+
+// goroutinesIn: number of goroutines whose stack contains the given function name
+func goroutinesIn(fn string) int {
+	buf := make([]byte, 1<<20)
+	n := runtime.Stack(buf, true)
+	cnt := 0
+	for _, blk := range strings.Split(string(buf[:n]), "\n\n") {
+		if strings.Contains(blk, fn) {
+			cnt++
+		}
+	}
+	return cnt
+}
+
+// defaultCollectorScenarios (oracle in Go): a client with the library's own ticker collector and the real
+// clock; when Close has returned, no goroutine is left in the reader loop or in the collector's ticker.
+func defaultCollectorScenarios(o *out, r *rng, n int) {
+	for i := 0; i < n; i++ {
+		line := fmt.Sprintf("x default-collector #%d noconnclose=%v", i, i%2 == 1)
+		h := &clientHarness{o: o, line: line, tidInst: map[[12]byte]int{}, attempts: map[int]int{}}
+		conn := &scriptConn{rd: make(chan []byte), idle: make(chan struct{}, 1), closedCh: make(chan struct{}),
+			failInst: map[int]bool{}, clock: &vclock{now: agentBase}, h: h, unblock: make(chan struct{})}
+		opts := []stun.ClientOption{stun.WithRTO(time.Millisecond), stun.WithTimeoutRate(time.Millisecond)}
+		if i%2 == 1 {
+			opts = append(opts, stun.WithNoConnClose())
+		}
+		c, err := stun.NewClient(conn, opts...)
+		if err != nil {
+			continue
+		}
+		waitIdle(conn)
+		var mu sync.Mutex
+		invoked := 0
+		k := r.intn(3)
+		for j := 0; j < k; j++ {
+			m := &stun.Message{TransactionID: clientTID(600 + j), Raw: stunMsg(r, 600+j, 20)}
+			_ = c.Start(m, func(stun.Event) { mu.Lock(); invoked++; mu.Unlock() })
+		}
+		time.Sleep(time.Duration(r.intn(4)) * time.Millisecond) // let the ticker fire a few times
+		done := make(chan error, 1)
+		go func() { done <- c.Close() }()
+		if i%2 == 1 {
+			time.Sleep(time.Millisecond)
+			close(conn.unblock)
+		}
+		select {
+		case <-done:
+		case <-time.After(5 * time.Second):
+			o.failFor("C15", "close-did-not-return", line)
+			clientStuck.Add(1)
+			continue
+		}
+		left := 0
+		for t := 0; t < 50; t++ {
+			left = goroutinesIn("(*Client).readUntilClosed") + goroutinesIn("(*tickerCollector).Start")
+			if left == 0 {
+				break
+			}
+			time.Sleep(time.Millisecond)
+		}
+		if left != 0 {
+			o.failFor("C15", "goroutine-leak", fmt.Sprintf("%s reader/collector goroutines still running: %d", line, left))
+		}
+		mu.Lock()
+		if invoked != k {
+			o.failFor("C10", "transaction-not-completed-by-close", fmt.Sprintf("%s started=%d invoked=%d", line, k, invoked))
+		}
+		mu.Unlock()
+		o.count("default-collector-scenarios")
 	}
 }
